@@ -36,7 +36,7 @@ class CellTranslator(AbstractTranslator):
                 try:
                     lexer = Lexer.parse(cell.value, in_cell=cell)
                     ast = AstBuilder.parse(lexer, in_cell=cell)
-                    code = EntryPointTokenTranslator.translate(ast, excel, context)
+                    code = context.check_code(EntryPointTokenTranslator.translate(ast, excel, context))
                 except RecursionError as e:
                     # the grammar is right recursive: a very long operator chain or a very deep nesting (also of cells
                     # that depend on each other) exhausts the interpreter stack - a problem of parsing, not a crash
